@@ -75,6 +75,26 @@ theorem qe_representations_agree {K} [Field K] [LinearOrder K] [IsStrictOrderedR
       obtain ⟨p', hp', rfl⟩ := hp
       exact hflat p' hp'
 
+/-- the same with the band condition stated in the GRID's own unit: it is enough that the requested wavelengths, converted to the
+spectrum's unit `su` (`wave l · (wu → su)`, regenerated factor), lie in `[x0, xl]` — whatever unit `wu` the call uses -/
+theorem qe_representations_agree_grid_unit {K} [Field K] [LinearOrder K] [IsStrictOrderedRing K] (nw : Nat) (img : Nat → Int → Int → K) (q : K)
+    (v : Nat → K) (grid : List (K × K)) (su wu : Gen.WUnit) (wave : Nat → K) (x0 xl : K)
+    (hv : ∀ l, l < nw → v l = q)
+    (hflat : ∀ p ∈ grid, p.2 = q) (hhead : grid.head? = some (x0, q)) (hlast : grid.getLast? = some (xl, q)) (hlen : 2 ≤ grid.length)
+    (hband : ∀ l, l < nw → x0 ≤ wave l * Gen.waveTo wu su ∧ wave l * Gen.waveTo wu su ≤ xl) :
+    ∃ a b c, (QE.scalar q).asArray nw = some a ∧ (QE.vector nw v).asArray nw = some b ∧
+      (QE.spectrumObj grid su wave wu).asArray nw = some c ∧
+      ∀ i j, collectCharge nw img a i j = collectCharge nw img b i j ∧ collectCharge nw img b i j = collectCharge nw img c i j := by
+  apply qe_representations_agree nw img q v grid su wu wave x0 xl hv hflat hhead hlast hlen
+  intro l hl
+  have hinv : (Gen.waveTo wu su : K) * Gen.waveTo su wu = 1 := by cases su <;> cases wu <;> norm_num [Gen.waveTo]
+  have hpos : (0 : K) < Gen.waveTo su wu := by cases su <;> cases wu <;> norm_num [Gen.waveTo]
+  obtain ⟨h1, h2⟩ := hband l hl
+  have e : wave l = wave l * Gen.waveTo wu su * Gen.waveTo su wu := by rw [mul_assoc, hinv, mul_one]
+  constructor
+  · rw [e]; exact mul_le_mul_of_nonneg_right h1 hpos.le
+  · rw [e]; exact mul_le_mul_of_nonneg_right h2 hpos.le
+
 /-- a Spectrum efficiency, flat or not, gives exactly the electrons of the vector of its own samples at the call's wavelengths
 (`qe_asarray` replaces the Spectrum by `Spectrum.sample(wave, waveunit)`), in every pair of units -/
 theorem qe_spectrum_equals_its_samples {K} [Field K] [LinearOrder K] (nw : Nat) (img : Nat → Int → Int → K) (grid : List (K × K))
@@ -469,6 +489,16 @@ theorem adc_monotone [IsStrictOrderedRing K] (cap : Option K) (g : List K)
   · cases cap with
     | none => simpa [clipSat]
     | some c => rw [clipSat_eq_min]; exact le_min hx (hcap c rfl)
+
+/-- the DN never exceed the digitised capacity: for a gain curve non-decreasing on `[0, c]` and non-negative counts,
+`adc ≤ max 0 ⌊gain(c)⌋` — the bound that makes "representable in the requested output type" a checkable condition on the capacity -/
+theorem adc_le_at_cap [IsStrictOrderedRing K] (c : K) (g : List K)
+    (hmono : ∀ a b, 0 ≤ a → a ≤ b → b ≤ c → polyGain g a ≤ polyGain g b) (hc : 0 ≤ c) {x : K} (hx : 0 ≤ x) :
+    adcValue Int.floor (some c) g x ≤ max 0 ⌊polyGain g c⌋ := by
+  rw [adcValue_eq_max, clipSat_eq_min]
+  apply max_le_max (le_refl _)
+  apply Int.floor_mono
+  exact hmono _ _ (le_min hx hc) (min_le_right _ _) (le_refl _)
 
 /-- in particular for gain curves with non-negative coefficients -/
 theorem adc_monotone_nonneg_coeffs [IsStrictOrderedRing K] (cap : Option K) (g : List K) (hg : ∀ c ∈ g, 0 ≤ c) (hcap : ∀ c, cap = some c → 0 ≤ c)
